@@ -1,4 +1,5 @@
 mod adapt;
+mod astro;
 mod engine;
 mod lunmodel;
 mod model;
